@@ -526,6 +526,10 @@ func main() {
 					run.Violation(k, d, map[string]interface{}{"log": log})
 					return
 				}
+				if k, d := catalogueBackToBack(log); k != "" {
+					run.Violation(k, d, map[string]interface{}{"log": log, "back_to_back": true})
+					return
+				}
 				for c := 0; c <= len(log); c++ {
 					for _, used := range []bool{false, true} {
 						cuts++
